@@ -23,7 +23,8 @@ RULE = (
     "map, NaN/inf injected into fully loaded arrays (amplitudes, similar templates, a spike "
     "attribute), an all-NaN unused template, extra spike_*.npy attributes of right and wrong "
     "length, curated clusters. Sizes: 2-40 spikes, 2-6 templates, 2-10 channels. In 1 of 5 cases "
-    "two distinct spike times are swapped and loading must raise ValueError. Oracle: the arrays "
+    "two distinct spike times are swapped and loading must raise ValueError and leave the directory "
+    "exactly as it was. Oracle: the arrays "
     "the generator stored (before np.save), squeezed, with documented defaults; SHA-256 of every "
     "pre-existing file before/after load_model()+close(); set of created files. Non-trivial: the "
     "spec differs from 'all files present, KS names, 1-D vectors' in >= 1 switch.")
@@ -99,8 +100,15 @@ def check(case):
             s[i], s[i + 1] = s[i + 1], s[i]
             bad['samples'] = s
             T = D.build(bad, d / 'bad')
+            before_bad = D.sha_dir(T.dir)
             must_raise('load_model(non-monotonic spike times)', ValueError, load_model,
                        T.params_path)
+            # a rejected load has no effect: the directory is exactly as it was (otherwise the
+            # copy made from the unsorted templates would survive the user's repair of the files)
+            after_bad = D.sha_dir(T.dir)
+            require(after_bad == before_bad, 'a rejected load created or changed files',
+                    key='rejected-load-side-effect',
+                    observed=sorted(set(after_bad.items()) ^ set(before_bad.items())))
             info['nonmono'] = True
         T = D.build(spec, d / case.get('dirname', 'ds'))
         before = D.sha_dir(T.dir)
